@@ -434,12 +434,21 @@ def eval_op(line, extra=None):
     return "bad-op"
 
 
+_HANGS = [0]
+
+
 def eval_guarded(line, extra=None, timeout=20):
+    """run one op under a watchdog.  Once an op has hung the tree is already known to violate
+    termination; later ops still run for real, but under a shorter watchdog so that a check on
+    a hanging tree finishes in minutes (ordinary ops take milliseconds)."""
+    if _HANGS[0] >= 1:
+        timeout = min(timeout, 3)
     signal.signal(signal.SIGALRM, _alarm)
     signal.alarm(timeout)
     try:
         return eval_op(line, extra)
     except Hang:
+        _HANGS[0] += 1
         return "HANG"
     finally:
         signal.alarm(0)
